@@ -96,6 +96,11 @@ func (a *arrayObject) _setLengthInt(l uint32, throw bool) bool {
 		}
 	}
 	if l <= uint32(len(a.values)) {
+		for _, v := range a.values[l:] {
+			if v != nil {
+				a.objCount--
+			}
+		}
 		if l >= 16 && l < uint32(cap(a.values))>>2 {
 			ar := make([]Value, l)
 			copy(ar, a.values)
@@ -437,16 +442,23 @@ func (a *arrayObject) _defineIdxProperty(idx uint32, desc PropertyDescriptor, th
 				return false
 			}
 		}
+		_, isProp := prop.(*valueProperty)
 		if a.expand(idx) {
 			a.values[idx] = prop
-			a.objCount++
-			if _, ok := prop.(*valueProperty); ok {
-				a.propValueCount++
+			if existing == nil {
+				a.objCount++
+			}
+			if _, wasProp := existing.(*valueProperty); wasProp != isProp {
+				if isProp {
+					a.propValueCount++
+				} else {
+					a.propValueCount--
+				}
 			}
 		} else {
 			sa := a.val.self.(*sparseArrayObject)
 			sa.add(idx, prop)
-			if _, ok := prop.(*valueProperty); ok {
+			if isProp {
 				sa.propValueCount++
 			}
 		}
